@@ -1264,6 +1264,55 @@ def sharing_docs() -> list[tuple[str, dict]]:
     return out
 
 
+def interplay_docs() -> list[tuple[str, dict]]:
+    """Small documents, each combining two features whose generated code meets in one signature / class body / module
+    namespace (defaults x argument order, reserved argument names x bodies, inherited defaults x narrowing, class
+    names x builtins, tags / operation ids x package module names)."""
+    out = []
+    ok = {"200": {"description": "ok"}}
+    R = lambda n: {"$ref": f"#/components/schemas/{n}"}  # noqa: E731
+
+    def mk(label, schemas=None, paths=None, version="3.0.3"):
+        d = base_doc(version, "Interplay " + label)
+        d["components"]["schemas"] = schemas or {}
+        d["paths"] = paths or {}
+        out.append((f"interplay:{label}", d))
+    # path parameters with defaults in each position of the argument list
+    for pos in range(3):
+        ps = [{"name": n, "in": "path", "required": True, "schema": dict({"type": "integer"} if i != 1 else {"type": "string"}, **({"default": 5 if i != 1 else "five"} if i == pos else {}))} for i, n in enumerate(["a", "b", "c"])]
+        mk(f"path_default_{pos}", paths={"/x/{a}/{b}/{c}": {"get": {"operationId": f"path_default_{pos}", "parameters": ps + [{"name": "q", "in": "query", "required": True, "schema": {"type": "string"}}], "responses": ok}}})
+    # parameters spelled like the arguments the templates reserve, in each location, with and without a body
+    for nm in ("body", "client", "Client", "CLIENT", "url", "kwargs", "response", "_client", "client_"):
+        for loc in ("query", "header", "path"):
+            path = "/r/{%s}" % nm if loc == "path" else "/r"
+            op = {"operationId": f"res_{loc}", "parameters": [{"name": nm, "in": loc, "required": loc == "path", "schema": {"type": "string"}}], "responses": ok,
+                  "requestBody": {"content": {"application/json": {"schema": {"type": "object", "properties": {"b": {"type": "string"}}}}}}}
+            mk(f"reserved_{nm}_{loc}", paths={path: {"post": op, "get": {k: v for k, v in op.items() if k != "requestBody"} | {"operationId": f"res_{loc}_nobody"}}})
+    # an allOf member narrowing / re-declaring an inherited property that has a default
+    E3, E2 = {"type": "string", "enum": ["a", "b", "c"]}, {"type": "string", "enum": ["a", "b"]}
+    for label, parent_p, child_p in (("enum_narrowed_default_on_parent", dict(E3, default="a"), E2), ("enum_narrowed_default_on_child", E3, dict(E2, default="b")), ("enum_narrowed_default_lost", dict(E3, default="c"), E2),
+                                     ("int_over_number_default", {"type": "number", "default": 3}, {"type": "integer"}), ("date_over_string_default", {"type": "string", "default": "2020-01-02"}, {"type": "string", "format": "date"}),
+                                     ("enum_over_string_default", {"type": "string", "default": "a"}, E2), ("array_items_narrowed", {"type": "array", "items": {"type": "number"}}, {"type": "array", "items": {"type": "integer"}}),
+                                     ("array_items_models", {"type": "array", "items": R("Item")}, {"type": "array", "items": R("Item")}), ("ref_enum_default", dict(allOf=[R("Colour")], default="red"), R("Colour"))):
+        for order in (0, 1):
+            members = [R("Parent"), {"type": "object", "properties": {"p": child_p, "own": {"type": "string"}}}]
+            S = {"Item": {"type": "object", "properties": {"k": {"type": "string"}}}, "Colour": {"type": "string", "enum": ["red", "green"]},
+                 "Parent": {"type": "object", "properties": {"p": parent_p}}, "Child": {"allOf": members if order == 0 else members[::-1]}, "GrandChild": {"allOf": [R("Child"), {"type": "object", "properties": {"g": {"type": "integer"}}}]}}
+            mk(f"{label}_{order}", schemas=S)
+    # classes named after builtins / typing names / the package's own modules, as model and as enum
+    for nm in ("Type", "Format", "Filter", "Range", "List", "Dict", "Union", "Any", "Unset", "File", "Response", "Client", "None", "Optional", "Literal", "cast", "datetime", "UUID", "Enum", "str", "int", "T", "types", "errors", "models"):
+        S = {nm: {"type": "string", "enum": ["x", "y"]}, nm + "Model" if nm[0].isupper() else "Holder": {"type": "object", "properties": {"e": R(nm), "l": {"type": "array", "items": R(nm)}, "when": {"type": "string", "format": "date-time"}, "u": {"type": "string", "format": "uuid"}}}}
+        mk(f"enum_named_{nm}", schemas=S, paths={"/e": {"get": {"operationId": "get_e", "parameters": [{"name": "e", "in": "query", "schema": R(nm)}], "responses": {"200": {"description": "ok", "content": {"application/json": {"schema": R(nm)}}}}}}})
+        S2 = {nm: {"type": "object", "properties": {"a": {"type": "string"}, "self_ref": R(nm), "day": {"type": "string", "format": "date"}}}, "Holder": {"type": "object", "properties": {"m": R(nm), "ms": {"type": "array", "items": R(nm)}, "u": {"oneOf": [R(nm), {"type": "integer"}]}}}}
+        mk(f"model_named_{nm}", schemas=S2, paths={"/m": {"post": {"operationId": "post_m", "requestBody": {"content": {"application/json": {"schema": R(nm)}}}, "responses": {"200": {"description": "ok", "content": {"application/json": {"schema": R(nm)}}}}}}})
+    # tags and operation ids named after the package's own modules and dunder files
+    for tag in ("types", "errors", "client", "models", "api", "init", "__init__", "default", "py.typed", "import", "None"):
+        mk(f"tag_{tag}", schemas={"M": {"type": "object", "properties": {"a": {"type": "string"}}}},
+           paths={"/t": {"get": {"operationId": "get_t", "tags": [tag], "responses": {"200": {"description": "ok", "content": {"application/json": {"schema": R("M")}}}}}},
+                  "/u": {"get": {"operationId": tag, "tags": ["ops"], "responses": ok}}, "/v": {"get": {"operationId": tag, "tags": [tag], "responses": ok}}})
+    return out
+
+
 def typing_stress_docs() -> list[tuple[str, dict]]:
     """Documents aimed at the type checker only (no instances are derived from them): unions that combine anyOf and
     oneOf, responses whose media types disagree, bodies / parameters of every union flavour."""
